@@ -12,7 +12,7 @@ from pipes import vector
 LEVEL = "exploration"
 MEM_KINDS = ("trap", "crash", "canary", "hang")
 QUICK = ("stringview", "string", "clib", "intconv", "bitset")
-THOROUGH = QUICK + ("set", "algo", "sum")
+THOROUGH = QUICK + ("set", "algo", "sum", "calendar")
 
 
 def _mine(d):
